@@ -11,6 +11,7 @@ import ParryModel.C09.Theorems14
 import ParryModel.C09.Theorems15
 import ParryModel.C09.Theorems16
 import ParryModel.C09.Theorems17
+import ParryModel.C09.Theorems18
 /-!
 # C09 property theorems (index).
 * `Theorems1` — interval enclosures (`+ - neg *`, enclose, intersect), box algebra, `scaled`, `transform_by`, composites
@@ -31,4 +32,5 @@ import ParryModel.C09.Theorems17
 * `Theorems15` — the `dyn Shape` dispatch: `compute_aabb` / `compute_bounding_sphere` / `compute_swept_aabb` contain the posed shape for EVERY convex kind (RoundShape recursively); `Aabb::bounding_sphere`, composite spheres
 * `Theorems16` — composite tightness: each face of the cached QBVH root box is a face of a leaf; TriMesh / Polyline boxes touch a vertex / segment point on every face
 * `Theorems17` — parry2d: `compute_aabb` / `compute_bounding_sphere` / `compute_swept_aabb` contain the posed shape for every 2-D convex kind
+* `Theorems18` — `find_root_intervals_to` = caller's results ++ `find_root_intervals` (any scalar type); cover transfers
 -/
